@@ -6,6 +6,7 @@ import (
 	"strings"
 
 	meta "github.com/nspcc-dev/neofs-node/pkg/local_object_storage/metabase"
+	"github.com/nspcc-dev/neofs-node/verifharness/stor"
 	"github.com/nspcc-dev/neofs-node/verifharness/uni"
 	oid "github.com/nspcc-dev/neofs-sdk-go/object/id"
 	"pgregory.net/rapid"
@@ -60,7 +61,10 @@ const (
 	KTick   = "tick"   // one write-cache scheduler period (background flush)
 	KRace   = "race"   // park the background flush of (C,I) before its blob write, run Inner, resume
 	KReopen = "reopen" // clean restart
-	KResync = "resync" // stop, offline metabase resync from the blob storage, start
+	KResync = "resync" // stop, offline metabase resync from the blob storage, start (Mark 0: live epoch source, 1: epoch 0 as neofs-lancet)
+	// KTickNoSpace: one scheduler period during which every write of the flusher
+	// into the blob storage fails with common.ErrNoSpace (full disk)
+	KTickNoSpace = "tick-enospc"
 )
 
 // Op is one history step.
@@ -86,6 +90,8 @@ func (o Op) String() string {
 		return fmt.Sprintf("del(c%d/o%d)", o.C, o.I)
 	case KEpoch:
 		return fmt.Sprintf("epoch+%d", max(o.Exp, 1))
+	case KResync:
+		return [2]string{"resync(live-epoch)", "resync(epoch0)"}[o.Mark]
 	case KRace:
 		in := make([]string, len(o.Inner))
 		for i := range o.Inner {
@@ -122,6 +128,10 @@ type World struct {
 	tombs       [NCnr][NTomb]*Op
 	// MaxExp is the largest tombstone expiration used.
 	MaxExp int
+	// LateTombs: a fresh tombstone expires below the current epoch with probability LateTombs/4 (0 = 1).
+	LateTombs int
+	// GCPendingWeight is the weight of a GC pass while removals are pending (0 = 6).
+	GCPendingWeight int
 	// Bias, if set, may add weight to op kinds of the next top-level draw.
 	Bias func(add func(kind string, n int))
 	// Hooks for the property-specific model.
@@ -169,7 +179,7 @@ func (w *World) remember(s uni.Spec) {
 
 // Allow selects the op kinds a generator may draw.
 type Allow struct {
-	Race, Reopen, Resync bool
+	Race, Reopen, Resync, NoSpace bool
 }
 
 func (w *World) anyPresent() bool {
@@ -182,6 +192,9 @@ func (w *World) anyPresent() bool {
 	}
 	return false
 }
+
+// AnyStored reports whether some regular object is stored and not requested for removal.
+func (w *World) AnyStored() bool { return w.anyPresent() }
 
 // AnyPending reports whether a removal was requested and not collected yet.
 func (w *World) AnyPending() bool { return w.anyPending() }
@@ -218,6 +231,20 @@ func (w *World) cachedCount() int {
 		}
 	}
 	return n
+}
+
+// drawExp draws a tombstone expiration: current epoch + 0..2, or (a tombstone
+// delivered late, e.g. by replication) below the current epoch.
+func (w *World) drawExp(t *rapid.T) int {
+	cur := int(w.R.Epoch.CurrentEpoch())
+	lp := w.LateTombs
+	if lp <= 0 {
+		lp = 1
+	}
+	if cur > 0 && rapid.IntRange(0, 3).Draw(t, "late") < lp {
+		return cur - rapid.IntRange(1, cur).Draw(t, "lateby")
+	}
+	return cur + rapid.IntRange(0, 2).Draw(t, "exp")
 }
 
 // target draws a regular object, preferring ones satisfying pref.
@@ -258,7 +285,11 @@ func (w *World) Draw(t *rapid.T, al Allow, inner bool) Op {
 		add(KTomb, 1)
 	}
 	if w.anyPending() {
-		add(KGC, 6)
+		g := w.GCPendingWeight
+		if g <= 0 {
+			g = 6
+		}
+		add(KGC, g)
 	} else {
 		add(KGC, 1)
 	}
@@ -271,6 +302,9 @@ func (w *World) Draw(t *rapid.T, al Allow, inner bool) Op {
 			}
 			add(KFlush, n)
 			add(KTick, n)
+			if al.NoSpace && w.anyCached() {
+				add(KTickNoSpace, 4)
+			}
 			if w.cachedCount() >= 2 {
 				add(KTick, 3) // a batch flush (PutBatch) needs >= 2 small cached objects
 			}
@@ -288,7 +322,7 @@ func (w *World) Draw(t *rapid.T, al Allow, inner bool) Op {
 	if w.Bias != nil && !inner {
 		w.Bias(func(k string, n int) {
 			switch k {
-			case KFlush, KTick, KRace:
+			case KFlush, KTick, KRace, KTickNoSpace:
 				if !wc {
 					return
 				}
@@ -312,7 +346,11 @@ func (w *World) Draw(t *rapid.T, al Allow, inner bool) Op {
 		op.T = tt
 		_, op.I = w.target(t, func(c, i int) bool { return c == cc && w.Present[c][i] })
 		op.C = cc
-		op.Exp = int(w.R.Epoch.CurrentEpoch()) + rapid.IntRange(0, 2).Draw(t, "exp")
+		op.Exp = w.drawExp(t)
+	case KResync:
+		if rapid.IntRange(0, 3).Draw(t, "resync-epoch0") == 0 {
+			op.Mark = 1
+		}
 	case KMark:
 		op.C, op.I = w.target(t, present)
 		op.Mark = rapid.IntRange(0, 1).Draw(t, "mark")
@@ -338,7 +376,7 @@ func (w *World) Draw(t *rapid.T, al Allow, inner bool) Op {
 					if old := w.tombs[in.C][in.T]; old != nil {
 						in = *old
 					} else {
-						in.Exp = int(w.R.Epoch.CurrentEpoch()) + rapid.IntRange(0, 2).Draw(t, "exp")
+						in.Exp = w.drawExp(t)
 					}
 				}
 			} else if k == 1 && rapid.IntRange(0, 9).Draw(t, "gc") < 8 {
@@ -428,6 +466,10 @@ func (w *World) Apply(op Op) error {
 	case KTick:
 		w.R.Tick()
 		w.MaybeCached = [NCnr][NReg]bool{}
+	case KTickNoSpace:
+		w.R.SetNoSpace(true)
+		w.R.Tick()
+		w.R.SetNoSpace(false)
 	case KRace:
 		w.Races++
 		w.R.ArmPause(RegAddr(op.C, op.I))
@@ -450,7 +492,11 @@ func (w *World) Apply(op Op) error {
 		if err := w.R.CloseShard(); err != nil {
 			return fmt.Errorf("close before resync: %w", err)
 		}
-		if err := Resync(w.R.Dir(), w.R.Epoch); err != nil {
+		rep := w.R.Epoch
+		if op.Mark == 1 {
+			rep = &stor.Epoch{} // neofs-lancet opens the metabase with a constant epoch 0
+		}
+		if err := Resync(w.R.Dir(), rep); err != nil {
 			return fmt.Errorf("resync: %w", err)
 		}
 		if err := w.R.OpenAgain(); err != nil {
